@@ -11,10 +11,13 @@ struct ResetRun : NodeEnv {
     static std::vector<std::pair<uint8_t, uint16_t>> mkTbl() { std::vector<std::pair<uint8_t, uint16_t>> t = {{1, 0x2100}, {2, 0x3100}, {1, 0x2200}}; for (int i = 3; i < CO_EMCY_N && i < 27; i++) t.push_back({(uint8_t)(1 + i % 5), (uint16_t)(0x4000 + 0x100 * i)}); return t; }   // as many emergencies as the build allows (identifiers up to 26: several storage bytes)
     uint8_t *cbuf[2][CO_CSDO_N];
     int scripts = 0; bool armCb = false, cbFired = false; int cbType = 0; size_t cbMk = 0, cbMk2 = 0;   // reset requested by the application from inside CONmtHbConsEvent
-    ResetRun(const Plan &p, Cov &c, bool vb) : NodeEnv(p, c, vb) { memset(cbuf, 0, sizeof cbuf); }
-    ~ResetRun() { for (auto &a : cbuf) for (auto &b : a) free(b); }
+    ResetRun(const Plan &p, Cov &c, bool vb) : NodeEnv(p, c, vb) { memset(cbuf, 0, sizeof cbuf); self = this; }
+    ~ResetRun() { self = nullptr; for (auto &a : cbuf) for (auto &b : a) free(b); }
     static void appCb(void *) {}
-    static void doneCb(CO_CSDO *csdo, uint16_t index, uint8_t sub, uint32_t code) { if (W) W->ev(EV_CSDODONE, (int64_t)(csdo - W->S().node->CSdo), ((int64_t)index << 8) | sub, (int64_t)code); }
+    // completion callback of the SDO client: logs; with a retry budget (script bit 16) it starts the same upload again when the transfer failed - also when that happens inside a reset
+    static void doneCb(CO_CSDO *csdo, uint16_t index, uint8_t sub, uint32_t code) { if (!W) return; W->ev(EV_CSDODONE, (int64_t)(csdo - W->S().node->CSdo), ((int64_t)index << 8) | sub, (int64_t)code);
+        ResetRun *g = self; int sl = W->cur; if (g && code != 0 && g->retry[sl] > 0 && g->cbuf[sl][0] && csdo == &W->S().node->CSdo[0]) { g->retry[sl]--; g->cov.hit("client-request-from-inside-the-completion-callback"); CO_ERR e = COCSdoRequestUpload(csdo, CO_DEV(0x2000, 1), g->cbuf[sl][0], g->cbufSize[sl], doneCb, 25); W->ev(EV_NOTE, 77, (int64_t)e); } }
+    static ResetRun *self; int retry[2] = {0, 0}; uint32_t cbufSize[2] = {1, 1};
     void dict(std::vector<ObjSpec> &v) {
         add_mandatory(v, CO_SSDO_N);
         add_typed(v, T_SYNCID, 0x1005, 0, CO_OBJ_____RW, plan.c("syncprod", 0) ? 0x40000080u : 0x80u); add_typed(v, T_SYNCCYCLE, 0x1006, 0, CO_OBJ_____RW, (uint32_t)plan.c("synccycle", 5000));
@@ -73,7 +76,7 @@ struct ResetRun : NodeEnv {
         w.build(1, cfg, v, paraSpecs(), emcyTbl, para ? 32 : 0); w.s[1].lssStored = st; w.s[1].lssBaud = sb; w.s[1].lssNode = sn;
         if (para) for (size_t g = 0; g < w.s[1].paras.size(); g++) memcpy(&w.s[1].nvm[w.s[1].paras[g]->Offset], w.s[1].paraRam[g], w.s[1].paras[g]->Size);   // B's non-volatile memory holds A's current values: its initialisation loads exactly them
         w.s[1].now = w.s[0].now; w.s[1].pdoReceiveRet = w.s[0].pdoReceiveRet;
-        w.init(1); w.start(1);
+        w.init(1); w.start(1); retry[1] = retry[0];
         (void)CONodeGetErr(w.N(0)); (void)CONodeGetErr(w.N(1));
     }
     // observable trace of one operation on one slot
@@ -109,10 +112,10 @@ struct ResetRun : NodeEnv {
         else if (k == "trig") { if (o.arg(0) == 0) COTPdoTrigPdo(n->TPdo, (uint16_t)(o.arg(1) & 1)); else rc = (int)CODictWrByte(&n->Dict, CO_DEV(0x2100, 4), (uint8_t)o.arg(1)); }
         else if (k == "csdoreq") { CO_CSDO *cs = COCSdoFind(n, 0); if (!cs) return -99; uint32_t size = (uint32_t)o.arg(1) % 20 + 1; uint8_t *nb = (uint8_t *)malloc(size); memset(nb, 0x3C, size);
             rc = (int)(o.arg(0) ? COCSdoRequestUpload(cs, CO_DEV(0x2000, 1), nb, size, doneCb, (uint32_t)o.arg(2) % 50 + 5) : COCSdoRequestDownload(cs, CO_DEV(0x2000, 1), nb, size, doneCb, (uint32_t)o.arg(2) % 50 + 5));
-            if (rc == 0) { free(cbuf[sl][0]); cbuf[sl][0] = nb; } else free(nb); }   // a refused request leaves the running transfer's buffer alone
+            if (rc == 0) { free(cbuf[sl][0]); cbuf[sl][0] = nb; cbufSize[sl] = size; } else free(nb); }   // a refused request leaves the running transfer's buffer alone
         else if (k == "apptmr") { if (sl == 0 && !split) { if (o.arg(0)) { int16_t id = COTmrCreate(&n->Tmr, (uint32_t)o.arg(1) % 30 + 1, (uint32_t)o.arg(2) % 30 + 1, appCb, nullptr); if (id >= 0) appTimers.push_back(id); } else if (!appTimers.empty()) { (void)COTmrDelete(&n->Tmr, (int16_t)appTimers.back()); appTimers.pop_back(); } } }
         else if (k == "rcvret") w.s[sl].pdoReceiveRet = (int)o.arg(0);
-        else if (k == "script") { scripts = (int)o.arg(0) & 15; cov.hit("application-code-inside-callbacks"); }
+        else if (k == "script") { scripts = (int)o.arg(0) & 15; retry[sl] = ((int)o.arg(0) & 16) ? 2 : 0; cov.hit("application-code-inside-callbacks"); }
         else if (k == "geterr") (void)CONodeGetErr(n);
         else if (k == "read") { uint32_t val = 0; rc = (int)CODictRdLong(&n->Dict, CO_DEV(0x2100, 3), &val); rc = rc * 31 + (int)(val & 0xFFFF); rc = rc * 31 + (int)CONmtGetMode(&n->Nmt); rc = rc * 31 + COEmcyCnt(&n->Emcy); rc = rc * 31 + CONmtGetHbEvents(&n->Nmt, 20) + 7 * (int)CONmtLastHbState(&n->Nmt, 20); }
         return rc;
@@ -184,6 +187,7 @@ struct ResetRun : NodeEnv {
     }
 };
 
+ResetRun *ResetRun::self = nullptr;
 static Op sdoWr(uint16_t idx, uint8_t sub, uint32_t val, int width) { return Op("frame", {0x600, 8}, {(uint8_t)(0x23 | (4 - width) << 2), (uint8_t)idx, (uint8_t)(idx >> 8), sub, (uint8_t)val, (uint8_t)(val >> 8), (uint8_t)(val >> 16), (uint8_t)(val >> 24)}); }
 static Op sdoRd(uint16_t idx, uint8_t sub) { return Op("frame", {0x600, 8}, {0x40, (uint8_t)idx, (uint8_t)(idx >> 8), sub, 0, 0, 0, 0}); }
 static void gen_traffic(Rng &r, std::vector<Op> &ops, bool probe, bool para = false) {
@@ -215,7 +219,7 @@ static void gen_traffic(Rng &r, std::vector<Op> &ops, bool probe, bool para = fa
     else if (c == 36) ops.push_back(Op("csdoreq", {(int64_t)r.below(2), (int64_t)r.below(20), (int64_t)r.below(50)}));
     else if (c == 37) { if (!probe) ops.push_back(Op("apptmr", {(int64_t)r.chance(2, 3), (int64_t)r.below(30), (int64_t)r.below(30)})); else ops.push_back(Op("read")); }
     else if (c == 38) ops.push_back(Op("frame", {0x589, 8}, {r.pick<uint8_t>({0x60, 0x43, 0x80, 0x41, 0x00}), 0x00, 0x20, 1, 1, 2, 3, 4}));     // answer of the remote SDO server
-    else ops.push_back(r.chance(1, 2) ? Op("read") : r.chance(1, 3) ? Op("script", {(int64_t)r.below(16)}) : r.chance(1, 2) ? Op("sendfail", {r.range(1, 3)}) : Op("lag", {(int64_t)r.below(6)}));
+    else ops.push_back(r.chance(1, 2) ? Op("read") : r.chance(1, 3) ? Op("script", {(int64_t)r.below(32)}) : r.chance(1, 2) ? Op("sendfail", {r.range(1, 3)}) : Op("lag", {(int64_t)r.below(6)}));
     if (para && r.chance(1, 6)) { int c2 = (int)r.below(6);
         if (c2 == 0) ops.push_back(Op("frame", {0x600, 8}, {0x23, 0x10, 0x10, (uint8_t)r.range(1, 2), 0x73, 0x61, 0x76, 0x65}));                       // 'save'
         else if (c2 == 1) { uint32_t nid = r.pick<uint32_t>({0x640, 0x650, 0x660}); ops.push_back(sdoWr(0x1201, 1, 0x80000000u | 0x641, 4)); ops.push_back(sdoWr(0x1201, 1, nid + 1, 4)); }   // second server moved to another request identifier
